@@ -62,6 +62,14 @@ Theorem C08_generated_prolongation_is_model :
   [ (((i, j), W_result_WAssign), @apply_row2 Rsc (@P_row Rsc nth h k i j) x) ].
 Proof. exact gen_prolongation_is_model. Qed.
 
+(* the same for the extrapolated prolongation (macro FINE_NODE_EXTRAPOLATED_PROLONGATION) and the model row Pex_row *)
+Theorem C08_generated_extrapolated_prolongation_is_model :
+  forall (nr nth : Z) (h k : Z -> R), (2 <= nth)%Z -> Z.even nth = true -> (forall x, 0 < h x)%R -> (forall x, 0 < k x)%R ->
+  forall (x : Z -> Z -> R) (i j : Z), (0 <= i < nr)%Z -> (0 <= j < nth)%Z ->
+  @gen_extrapolated_prolongation Rsc nth (Z.quot nth 2) x i j =
+  [ (((i, j), W_result_WAssign), @apply_row2 Rsc (@Pex_row Rsc nth i j) x) ].
+Proof. exact gen_extrapolated_prolongation_is_model. Qed.
+
 Print Assumptions C08_R_is_P_transpose.
 Print Assumptions C08_Rex_is_Pex_transpose.
 Print Assumptions C08_P_linear_refuted.
